@@ -285,6 +285,30 @@ where
             seq.push((it.count() as i64, (0, 0, 0)));
             AdaptOut { len: Some(len), hint, seq }
         }
+        Comp::BothEndsThenFold | Comp::BothEndsThenCount => {
+            let mut it = it;
+            let mut seq: Vec<(i64, Elem)> = Vec::new();
+            for _ in 0..a {
+                seq.extend(it.next().map(|e| (-5, cv(e))));
+            }
+            for _ in 0..b {
+                seq.extend(it.next_back().map(|e| (-6, cv(e))));
+            }
+            let len = it.len();
+            let hint = it.size_hint();
+            if comp == Comp::BothEndsThenFold {
+                let mut ids = Vec::new();
+                let n = it.fold(0usize, |acc, x| {
+                    ids.push(cv(x));
+                    acc + 1
+                });
+                seq.extend(ids.into_iter().map(|e| (-1i64, e)));
+                seq.push((n as i64, (0, 0, 0)));
+            } else {
+                seq.push((it.count() as i64, (0, 0, 0)));
+            }
+            AdaptOut { len: Some(len), hint, seq }
+        }
         Comp::BacksThenFold | Comp::BacksThenCount | Comp::BacksThenLast | Comp::BacksThenForEach | Comp::NextsThenRfold | Comp::NextsThenLast => {
             let mut it = it;
             let mut seq: Vec<(i64, Elem)> = Vec::new();
@@ -782,11 +806,12 @@ impl<'c, Q: Queue> Interp<'c, Q> {
         };
         let loops = matches!(
             comp,
-            Comp::NextsThenNthBack | Comp::BacksThenNth | Comp::NextsThenCount | Comp::BacksThenFold | Comp::BacksThenCount | Comp::BacksThenLast | Comp::BacksThenForEach | Comp::NextsThenRfold | Comp::NextsThenLast
+            Comp::NextsThenNthBack | Comp::BacksThenNth | Comp::NextsThenCount | Comp::BacksThenFold | Comp::BacksThenCount | Comp::BacksThenLast | Comp::BacksThenForEach | Comp::NextsThenRfold | Comp::NextsThenLast | Comp::BothEndsThenFold | Comp::BothEndsThenCount
         );
+        let both = matches!(comp, Comp::BothEndsThenFold | Comp::BothEndsThenCount);
         let (a, b) = (
             if loops { (a as usize) % (n + 2) } else { huge(a).unwrap_or((a as usize) % (n + 2)) },
-            if matches!(comp, Comp::Zip | Comp::ZipRev) { (b as usize) % (n + 3) } else { huge(b).unwrap_or((b as usize) % (n + 3)) },
+            if matches!(comp, Comp::Zip | Comp::ZipRev) || both { (b as usize) % (n + 3) } else { huge(b).unwrap_or((b as usize) % (n + 3)) },
         );
         if a > n + 2 || b > n + 3 {
             self.stats.hit("adaptor_huge_argument");
@@ -878,7 +903,7 @@ impl<'c, Q: Queue> Interp<'c, Q> {
             // front: sorted sequences are compared on priorities
             let proj = |mut o: AdaptOut| {
                 for e in o.seq.iter_mut() {
-                    if !matches!(comp, Comp::Rposition | Comp::Fold | Comp::Count | Comp::Rfold | Comp::PositionThenRest | Comp::NextsThenCount | Comp::BacksThenFold | Comp::BacksThenCount) || e.0 < 0 {
+                    if !matches!(comp, Comp::Rposition | Comp::Fold | Comp::Count | Comp::Rfold | Comp::PositionThenRest | Comp::NextsThenCount | Comp::BacksThenFold | Comp::BacksThenCount | Comp::BothEndsThenFold | Comp::BothEndsThenCount) || e.0 < 0 {
                         e.1 = (0, 0, e.1 .2);
                     }
                 }
@@ -897,7 +922,7 @@ impl<'c, Q: Queue> Interp<'c, Q> {
             let mut d = ids.clone();
             d.sort_unstable();
             d.dedup();
-            let plain_seq = !matches!(comp, Comp::Peekable | Comp::Rposition | Comp::Count | Comp::Fold | Comp::Chain | Comp::Rfold | Comp::PositionThenRest | Comp::NextsThenCount | Comp::Map | Comp::BacksThenCount);
+            let plain_seq = !matches!(comp, Comp::Peekable | Comp::Rposition | Comp::Count | Comp::Fold | Comp::Chain | Comp::Rfold | Comp::PositionThenRest | Comp::NextsThenCount | Comp::Map | Comp::BacksThenCount | Comp::BothEndsThenCount);
             if plain_seq && d.len() != ids.len() {
                 self.fail(Group::Alias, "adaptor_yielded_twice", format!("iter_mut().{:?}({},{}) handed out an element twice: ids {:?}", comp, a, b, ids));
             } else if got.seq != want.seq || (got.len.is_some() && want.len.is_some() && (got.len != want.len || got.hint != want.hint)) {
@@ -934,7 +959,7 @@ impl<'c, Q: Queue> Interp<'c, Q> {
                 format!("{:?}.{:?}({},{}).size_hint() = {:?}, expected {:?}", which, comp, a, b, got.hint, want.hint),
             );
         }
-        if got.len.is_none() && !matches!(comp, Comp::Rposition | Comp::Nth | Comp::NthBack | Comp::Fold | Comp::Last | Comp::Rfold | Comp::FindThenRest | Comp::RfindThenRest | Comp::PositionThenRest | Comp::NextsThenCount | Comp::NthThenNthBack | Comp::NextsThenNthBack | Comp::BacksThenNth | Comp::BacksThenFold | Comp::BacksThenCount | Comp::BacksThenLast | Comp::BacksThenForEach | Comp::NextsThenRfold | Comp::NextsThenLast) && !hint_ok(got.hint, expected_count(&want, comp)) {
+        if got.len.is_none() && !matches!(comp, Comp::Rposition | Comp::Nth | Comp::NthBack | Comp::Fold | Comp::Last | Comp::Rfold | Comp::FindThenRest | Comp::RfindThenRest | Comp::PositionThenRest | Comp::NextsThenCount | Comp::NthThenNthBack | Comp::NextsThenNthBack | Comp::BacksThenNth | Comp::BacksThenFold | Comp::BacksThenCount | Comp::BacksThenLast | Comp::BacksThenForEach | Comp::NextsThenRfold | Comp::NextsThenLast | Comp::BothEndsThenFold | Comp::BothEndsThenCount) && !hint_ok(got.hint, expected_count(&want, comp)) {
             self.fail(Group::IterStd, "adaptor_size_hint_bound", format!("{:?}.{:?}: size_hint {:?} does not bound the {} items produced", which, comp, got.hint, want.seq.len()));
         }
         self.stats.hit("adaptor_run");
